@@ -542,6 +542,9 @@ def investigate(cases, idxs, limit=12):
 
 
 def explore_p(rep, tier, seed):
+    global PID
+    if "P_WORKDIR" not in os.environ and PID == "P" and getattr(rep, "pid", None) not in (None, "P"):
+        PID = "P-" + str(rep.pid)       # one scratch directory per calling property: concurrent checks must not delete each other's cases_*.v
     t0 = time.time()
     stats = {"cases": 0, "agree": 0, "disagree": 0, "ood": 0, "impl_exceptions": 0, "offsets_outside_file": 0, "by_stream": {}, "python_reading_problems": []}
     probs = python_reading_checks()
